@@ -67,8 +67,23 @@ func runC08(raw json.RawMessage, w *Writer) {
 	}
 	var hs []held
 	var inputs [][]byte
+	// an encoder-style caller: one backing buffer, refilled for every call (so every new input
+	// overwrites the memory of the previous ones with plausible data, not only with the scribble byte)
+	arena := make([]byte, 0)
 	for k, call := range c.Calls {
-		input := buildInput(call.Shape, call.Len, call.Salt)
+		fresh := buildInput(call.Shape, call.Len, call.Salt)
+		input := fresh
+		if fresh != nil && k%2 == 1 || (fresh != nil && len(c.Calls) > 1 && k > 0) {
+			if cap(arena) < len(fresh) {
+				arena = make([]byte, len(fresh), len(fresh)+64)
+			}
+			arena = arena[:len(fresh)]
+			copy(arena, fresh)
+			input = arena
+		} else if fresh != nil {
+			arena = append(make([]byte, 0, len(fresh)+64), fresh...)
+			input = arena
+		}
 		pristine := cloneBytes(input)
 		var frags, tfrags [][]byte
 		r, msg := guard(func() { frags = p.Payload(uint16(call.Mtu), input) })
